@@ -5,6 +5,7 @@
 #include "kernel.hpp"
 #include "codec.hpp"
 #include "tcpmodel.hpp"
+#include "simclock.hpp"
 #include <tins/tins.h>
 #include <tins/tcp_ip/stream_follower.h>
 #include <tins/tcp_ip/ack_tracker.h>
@@ -47,11 +48,12 @@ static std::string step_line(const TapRec& r) { KV k; k.set("t", r.t).set("c", r
 
 // Reference B1: byte-set reassembler for one direction, driven by frames decoded with sim/codec.
 struct RefDir {
-    uint32_t base; const Bytes* truth; std::vector<bool> arrived; size_t k; bool base_known;
+    uint32_t base; const Bytes* truth; size_t toff; std::vector<bool> arrived; size_t k; bool base_known;   // base <-> (*truth)[toff]
     // probes (model side)
     std::vector<std::pair<size_t, size_t> > pending;   // arrived segments not yet below k
-    RefDir() : base(0), truth(0), k(0), base_known(false) {}
-    void init(uint32_t b, const Bytes* t) { base = b; truth = t; arrived.assign(t->size(), false); k = 0; base_known = true; pending.clear(); }
+    RefDir() : base(0), truth(0), toff(0), k(0), base_known(false) {}
+    void init(uint32_t b, const Bytes* t, size_t off0 = 0) { base = b; truth = t; toff = std::min(off0, t->size()); arrived.assign(t->size() - toff, false); k = 0; base_known = true; pending.clear(); }
+    const uint8_t* expect() const { return truth->data() + toff; }
     // returns false if the generator premise is broken (bytes are not those of the stream)
     bool on_segment(uint32_t seq, const Bytes& pl, RunStats& st, size_t* k_before = 0) {
         if (k_before) *k_before = k;
@@ -61,8 +63,8 @@ struct RefDir {
         if (end < seq) st.inc("probe.segment_straddles_2^32");
         if (off + (int64_t)pl.size() <= 0) { st.inc("probe.stale_segment"); if (off + (int64_t)pl.size() == 0) st.inc("probe.stale_ends_at_base"); return true; }
         size_t lo = off < 0 ? 0 : (size_t)off, hi = (size_t)(off + (int64_t)pl.size());
-        if (hi > truth->size()) return false;
-        for (size_t i = lo; i < hi; ++i) if (pl[(size_t)((int64_t)i - off)] != (*truth)[i]) return false;
+        if (hi > arrived.size()) return false;
+        for (size_t i = lo; i < hi; ++i) if (pl[(size_t)((int64_t)i - off)] != (*truth)[toff + i]) return false;
         if (hi <= k) { st.inc("probe.wholly_old_retransmit"); if (hi == k) st.inc("probe.segment_ends_at_delivery_point"); }
         if (lo < k && hi > k) st.inc("probe.overlaps_delivery_point");
         int covered = 0, eqstart = 0;
@@ -91,10 +93,10 @@ static bool check_buffered(const FlowT& f, const RefDir& ref, std::string& why, 
         sum += kv.second.size();
         int64_t off = (int64_t)seq_diff(kv.first, ref.base);
         if (seq_diff(kv.first, dp) <= 0) { why = fmt("chunk at stream offset %lld (len %zu) is at or below the delivery point %zu", (long long)off, kv.second.size(), ref.k); return false; }
-        if (off < 0 || (size_t)off + kv.second.size() > ref.truth->size()) { why = fmt("chunk offset %lld len %zu outside the stream", (long long)off, kv.second.size()); return false; }
+        if (off < 0 || (size_t)off + kv.second.size() > ref.arrived.size()) { why = fmt("chunk offset %lld len %zu outside the stream", (long long)off, kv.second.size()); return false; }
         for (size_t i = 0; i < kv.second.size(); ++i) {
             if (!ref.arrived[(size_t)off + i]) { why = fmt("buffered byte at offset %lld never arrived", (long long)off + (long long)i); return false; }
-            if (kv.second[i] != (*ref.truth)[(size_t)off + i]) { why = fmt("buffered byte at offset %lld differs from the stream", (long long)off + (long long)i); return false; }
+            if (kv.second[i] != (*ref.truth)[ref.toff + (size_t)off + i]) { why = fmt("buffered byte at offset %lld differs from the stream", (long long)off + (long long)i); return false; }
         }
         ++nchunks;
     }
